@@ -4,6 +4,7 @@ import (
 	"errors"
 	"fmt"
 	"io"
+	"net"
 
 	"verif/gen"
 	"verif/link"
@@ -187,6 +188,9 @@ func runC08(c *sim.Ctx) *sim.Violation {
 			// must hold for THAT value
 			fe, _ := link.NewFaultErr(c, fmt.Sprintf("link failure #%d", c.Seq()))
 			E, wireE = fe, fe.Wire()
+			if _, isOp := wireE.(*net.OpError); isOp {
+				E = wireE // the value the reader returns IS the error E of the property
+			}
 			kindName = "E"
 		}
 		stream := append(append([]byte{}, prefixFrame...), frame...)
